@@ -3,6 +3,9 @@
    tools/go2v/c16_options.go re-reads, on every run of the check, with go/ast:
      compose/utils.go               extractOption, initGraphCallbacks, initNodeCallbacks
      compose/graph_call_options.go  Option.deepCopy, Option.DesignateNodeWithPath
+     compose/graph_run.go           runner.extractOption, the checkOption closure of toComposableRunnable,
+                                    createTasks, restoreTasks, the flow of the options through run
+     compose/graph_manager.go       taskManager.executor
    and translates them statement by statement into coq/Gen/OptExtract.v, Gen/OptCallbacks.v,
    Gen/OptDesignate.v (vocabulary: Model/OptionsGenLib.v, Base/GoSlice.v). This file proves, for
    ALL arguments, that the translated functions are the functions of Model/Options.v /
@@ -18,6 +21,8 @@
                                        (for every value of the task's skipPreHandler flag and every checkpoint)
      gen_option_flow_agrees            the data flow of the call's options through runner.run / executor
                                        (Model/OptionsSitesTable.v)
+     gen_runnerExtractOption_agrees    Gen.runnerExtractOption (the translated checkOption closure around the
+                                       next level) g opts = validate (S f) F gi opts   (nth_error F gi = Some g)
      gen_extractOption_never_panics    no s[0] / s[1:] of extractOption is out of range
      gen_designate_copies              the translated DesignateNodeWithPath returns base ++ new paths
                                        and leaves every array visible before the call untouched
@@ -32,7 +37,7 @@ From Coq Require Import Lia.
 From Eino Require Import Base.Util Model.Options Model.OptionsGenLib.
 From Eino Require Import Base.GoSlice Model.OptionsSlice.
 From Eino Require Import Model.OptionsResume Model.OptionsSitesTable.
-From Eino Require Gen.OptExtract Gen.OptCallbacks Gen.OptDesignate Gen.OptTasks.
+From Eino Require Gen.OptExtract Gen.OptCallbacks Gen.OptDesignate Gen.OptTasks Gen.OptValidate.
 
 Definition ctl_of_res {A} (r : res A) : ctl A :=
   match r with Ok a => Next a | Err e => Fail e | Panic => Crash end.
@@ -207,6 +212,50 @@ Qed.
 Theorem gen_option_flow_agrees :
   Gen.OptTasks.option_flow = Model.OptionsSitesTable.option_flow.
 Proof. reflexivity. Qed.
+
+(* ---------------------------------------------------------------- runner.extractOption: distribution + validation *)
+(* Gen.runnerExtractOption is parametrised by what c.action.checkOption does; instantiated with the
+   translated closure of toComposableRunnable around the next level's validation it IS [validate]. *)
+
+(* a loop that only inspects: the accumulator is handed through unchanged *)
+Lemma go_range_check : forall {X A} (body : X -> A -> ctl A) (f : X -> res unit) (l : list X) (a : A),
+  (forall x, In x l -> body x a = match f x with Ok _ => Next a | Err e => Fail e | Panic => Crash end) ->
+  go_range body l a = match res_mapM f l with Ok _ => Next a | Err e => Fail e | Panic => Crash end.
+Proof.
+  intros X A body f l a; induction l as [|x l IH]; intros H; simpl; [reflexivity|].
+  rewrite (H x (or_introl eq_refl)). destruct (f x) as [[]|e|]; simpl; try reflexivity.
+  rewrite IH by (intros y Hy; apply H; right; exact Hy).
+  destruct (res_mapM f l); reflexivity.
+Qed.
+
+Ltac c16_validate_real f F gi g opts :=
+  unfold Gen.OptValidate.runnerExtractOption;
+  rewrite gen_extractOption_agrees;
+  destruct (extract_option g opts []) as [m|e|]; simpl; try reflexivity;
+  rewrite (go_range_check _ (fun nd => match n_kind nd with
+                                       | KComp _ => Ok tt
+                                       | KSub gj => do os <- convert_opts (om_get (n_key nd) m); do _ <- validate f F gj os; Ok tt
+                                       end));
+  [ match goal with |- context [res_mapM ?h g] => destruct (res_mapM h g) end; reflexivity
+  | let nd := fresh "nd" in
+    intros nd _; unfold action_nil, check_nil, Gen.OptValidate.checkOption;
+    destruct (n_kind nd) as [ty|gj]; simpl; [reflexivity|];
+    destruct (convert_opts (om_get (n_key nd) m)) as [os|e|]; simpl; try reflexivity;
+    destruct (validate f F gj os); reflexivity ].
+
+Theorem gen_runnerExtractOption_agrees : forall f F gi g opts,
+  nth_error F gi = Some g ->
+  Gen.OptValidate.runnerExtractOption
+    (fun nd es => match n_kind nd with
+                  | KSub gj => Gen.OptValidate.checkOption (fun os => validate f F gj os)
+                                                        (fun os => match nth_error F gj with Some g' => extract_option g' os [] | None => Err E_GRAPH end) es
+                  | KComp _ => Ok tt
+                  end) g opts
+  = validate (S f) F gi opts.
+Proof.
+  intros f F gi g opts Hg. cbn [validate]. rewrite Hg.
+  first [ reflexivity | c16_validate_real f F gi g opts ].
+Qed.
 
 (* ---------------------------------------------------------------- consequences for the translated code *)
 
